@@ -15,6 +15,10 @@ NA = {
 }
 
 CHECKS = {
+ "C12": dict(level="exploration", design="§5 C12",
+   text="Seeded search over multi-instance scenarios: 2-4 interpreters with their own programs, hosts, clocks and random seeds, scheduled action by action by the simulator in one thread (incl. late creation, early drop, forced collects), after prior lifetimes, and as one OS thread per instance released one action at a time; every instance's full trace must equal its solo trace. Plus the same seeds in 2 (quick) / 4 (thorough) fresh processes under ASLR with a shifted heap: trace hashes must agree.",
+   note="Trusted: harness; per-instance collector schedules use thresholds/forced collects only (the injection seam is per thread). A cross-process hash mismatch is reported with the seed index; it cannot be turned into a single-process replay file by construction.",
+   technique="deterministic simulation: seeded instance-interleaving scheduler (one thread and turn-based threads) + process-restart comparison"),
  "C11": dict(level="fault_enumeration", design="§5 C11",
    text="Crash-and-restart histories on one interpreter: victims end by running out, dying of an uncaught (planted) error at arbitrary depth, being abandoned after s steps, or being left suspended; restart = next prepare(). Quick tier samples crash points; the thorough tier enumerates EVERY step index of victims with T<=400 steps (larger ones sampled). Oracle: a fixed battery and a generated observer behave exactly as on a fresh interpreter (outcome, console, traffic with renumbered order ids, exports), call depth 0, H4 quiescence tuple equal.",
    note="Trusted: harness; victims are generated free of deliberate global effects (block- or module-scoped). Crash-point enumeration is complete per victim only in the thorough tier and only for victims of at most 400 steps; victims themselves are sampled.",
